@@ -352,17 +352,20 @@ def unbox(v, ty, facts, assume_types=True):
     if isinstance(ty, TSet):
         if assume_types:
             facts.add(V.is_box(v))
+            facts.add(S.inj_set(S.unb_set(V.bid(v))) == V.bid(v))
         return sv_set(S.unb_set(V.bid(v)), ty.elem)
     if isinstance(ty, TList):
         b = V.bid(v)
         if assume_types:
             facts.add(V.is_box(v))
             facts.add(S.unb_list_len(b) >= 0)
+            facts.add(S.inj_list(S.unb_list_len(b), S.unb_list_arr(b)) == b)
         return sv_list(S.unb_list_len(b), S.unb_list_arr(b), ty.elem)
     if isinstance(ty, TDict):
         b = V.bid(v)
         if assume_types:
             facts.add(V.is_box(v))
+            facts.add(S.inj_dict(S.unb_dict_dom(b), S.unb_dict_map(b)) == b)
         return sv_dict(S.unb_dict_dom(b), S.unb_dict_map(b), ty.k, ty.v)
     if isinstance(ty, TTuple):
         n = len(ty.items)
